@@ -336,7 +336,7 @@ func (g *aspGen) boolExpr(d int) ex {
 	case k < 8:
 		op := cmpOps[g.n(0, 5, "cmp")]
 		l, r := g.intExpr(d-1), g.intExpr(d-1)
-		if g.chance(8, "chain") {
+		if g.chance(3, "chain") {
 			// chained comparison: a < b < c
 			if g.o.ExclChainedCompare {
 				g.excluded("chained-comparison")
